@@ -298,8 +298,13 @@ fn run_profile<P: Property>(
                     String::from_utf8_lossy(&o.stderr)
                 ));
             };
-            let (scn, kind, _) = plan.job::<P>(seed, index);
             let stderr = String::from_utf8_lossy(&o.stderr);
+            if o.status.code() == Some(101) {
+                // Panics of the code under test are caught and judged; an uncaught one is
+                // the harness's own (it runs with overflow checks on): never a verdict.
+                return Err(format!("the harness itself panicked on job {index} of {} (exit code 101): {}", P::ID, truncate(stderr.trim(), 300)));
+            }
+            let (scn, kind, _) = plan.job::<P>(seed, index);
             run.deaths.push(VioRec {
                 index,
                 kind: kind.to_string(),
